@@ -7,6 +7,15 @@ from suites import gen_history, run_suite, parse_snap, esc, snap_file_suffix, mu
 LEAN_MODULES = ['GoSnaps.Props.C03', 'GoSnaps.Props.Tie.Path', 'GoSnaps.Props.Tie.Snapshot', 'GoSnaps.Props.Tie.SnapshotIO', 'GoSnaps.Props.Tie.Registry', 'GoSnaps.Props.Tie.Flows']
 
 
+def valid_json(b):
+    import json
+    try:
+        json.loads(b.decode())
+        return True
+    except Exception:
+        return False
+
+
 def make_spec(g, allow):
     r = g.r
     h = gen_history(g, allow + ('many', 'badjson'), max_tests=4, max_calls=6,
@@ -17,7 +26,11 @@ def make_spec(g, allow):
         for rep in range(r.choice([1, 1, 2, 3])):
             cs = []
             for cfgno, c in calls:
-                if rep and r.random() < 0.3:
+                if rep and c.kind == 'json' and not valid_json(c.payload) and r.random() < 0.6:
+                    # the document that was rejected in the earlier execution is fine this time (a response that
+                    # was truncated once): this execution addresses the same slots as if the other had passed
+                    cs.append((cfgno, Call('json', g.json_text(g.json_value()).encode(), c.form if c.form != 'v' else 's')))
+                elif rep and r.random() < 0.3:
                     m, _ = mutate_call(g, c)
                     cs.append((cfgno, m or c))
                 else:
